@@ -54,8 +54,9 @@ def run():
         "samples": samples,
         "exhaustive": thorough,
         "explanation": ("direct RadioKind::get_rx_payload: all 256 lengths x 256 offsets x buffer sizes {0,1,12,64,255,256} x "
-                        "explicit/implicit header for SX1262 (status 'data available'; the other 11 status bytes on a 16x16 grid), "
-                        "SX1276 and SX1272; LoRa::complete_rx and LorawanRadio::rx_single on a 16x16 grid"
+                        "explicit/implicit header x 12 status bytes (all 8 command-status codes) for SX1262, and the same length/offset/"
+                        "buffer/header space for SX1276 and SX1272 (no status byte); LoRa::complete_rx and LorawanRadio::rx_single on a "
+                        "16x16 grid"
                         if thorough else
                         "16 lengths x 16 offsets (boundaries 0,1,12,64,127/128,255 and wrap-around) x 6 buffer sizes x header "
                         "modes x status bytes, on RadioKind::get_rx_payload, LoRa::complete_rx and LorawanRadio::rx_single, "
@@ -70,8 +71,8 @@ def run():
         "the emulated chip memory holds the pattern (37*i+11) mod 256 (injective), the caller's buffer a canary; two runs with "
         "different canaries make 'untouched' observable; the LoRaWAN adapter is driven with the caller's slice standing for the "
         "MAC's RadioBuffer (explicit header only: that is what the adapter configures)",
-        "on thorough the exhaustive claim covers the enumerated finite space named in 'explanation' (direct path with status 0x24); "
-        "the non-'data available' status bytes and the two indirect call paths are sampled on the 16x16 grid",
+        "on thorough the exhaustive claim covers the finite space named in 'explanation' for the direct call path; the two "
+        "indirect call paths (LoRa::complete_rx, LorawanRadio::rx_single) are sampled on the 16x16 grid in both tiers",
     ])
 
 
